@@ -523,6 +523,10 @@ func regC20b(add addFn, p pFn) {
 }
 
 func regC20c(add addFn, p pFn) {
+	for _, et := range []int{17, 23} {
+		add(&Instance{Property: "C20", Name: "client-diagnostics-keytab-unlisted-etype" + itoa(et), Entry: "client.VH_C20_ClientDiagnostics", Params: p("creds", 1, "login", 0, "ktetype", et), Stubs: []string{"leakcheck", "randstub"},
+			Reach: []string{"printed"}, Bound: "as client-diagnostics-keytab, the keytab also holding a key of enctype " + itoa(et) + " that the configuration does not list (Diagnostics reports such mismatches)"})
+	}
 	for _, v := range []int{3, 4} {
 		add(&Instance{Property: "C20", Name: "ccache-parse-errors-v" + itoa(v), Entry: "credentials.VH_C20_CCacheParseErrors", Params: p("version", v), Stubs: []string{"leakcheck"}, OnlyAsserts: true,
 			Reach: []string{"returned"}, Bound: "a version " + itoa(v) + " credential cache with one credential holding a 16-byte secret key, truncated at EVERY offset; parser panics are C04's subject and end the path here"})
@@ -530,10 +534,10 @@ func regC20c(add addFn, p pFn) {
 	add(&Instance{Property: "C20", Name: "credentials-surfaces", Entry: "credentials.VH_C20_Credentials", Stubs: []string{"leakcheck"},
 		Reach: []string{"dumped"}, Bound: "credentials with an 8-byte secret password and a keytab with a 16-byte secret key: JSON, gob, json.Marshal of the key and of the keytab"})
 	for c, n := range []string{"password", "keytab"} {
-		add(&Instance{Property: "C20", Name: "client-diagnostics-" + n, Entry: "client.VH_C20_ClientDiagnostics", Params: p("creds", c, "login", 0), Stubs: []string{"leakcheck", "randstub"},
+		add(&Instance{Property: "C20", Name: "client-diagnostics-" + n, Entry: "client.VH_C20_ClientDiagnostics", Params: p("creds", c, "login", 0, "ktetype", 18), Stubs: []string{"leakcheck", "randstub"},
 			Reach: []string{"printed"}, Bound: "client with a secret " + n + ", a TGT session and a cached ticket with secret session keys: Print, Diagnostics, log lines"})
 		for _, k := range [][3]int{{0, 0, 0}, {1, 6, 0}, {1, 14, 0}, {2, 0, 0}} {
-			add(&Instance{Property: "C20", Name: "client-exchange-errors-" + n + "-kdc" + itoa(k[0]) + "-code" + itoa(k[1]), Entry: "client.VH_C20_ClientDiagnostics", Params: p("creds", c, "login", 1, "kdc", k[0], "code", k[1], "maxseq", 1, "maxstr", 1),
+			add(&Instance{Property: "C20", Name: "client-exchange-errors-" + n + "-kdc" + itoa(k[0]) + "-code" + itoa(k[1]), Entry: "client.VH_C20_ClientDiagnostics", Params: p("creds", c, "login", 1, "kdc", k[0], "code", k[1], "ktetype", 18, "maxseq", 1, "maxstr", 1),
 				Stubs: []string{"leakcheck", "randstub", "kdcstub", "asn1havoc", "decryptstub", "lineartime"}, Replay: "stubbed", TimeoutS: 600,
 				Reach: []string{"printed", "exchanged"}, Bound: "as above, then Login and GetServiceTicket against a KDC that is unreachable (kdc0), answers KRB-ERROR code (kdc1) or undecodable bytes (kdc2): returned errors and log lines"})
 		}
@@ -586,7 +590,7 @@ func regC19(add addFn, p pFn) {
 
 func regC02(add addFn, p pFn) {
 	lt := []string{"lineartime", "yieldlocks"}
-	for _, h := range []string{"Sequential", "NameEncoding", "TwoServices", "Cleanup"} {
+	for _, h := range []string{"Sequential", "NameEncoding", "TwoServices", "Cleanup", "SameInstantOtherZone"} {
 		add(&Instance{Property: "C02", Name: "history-" + h, Entry: "service.VH_C02_" + h, Stubs: lt, Replay: "stubbed", Reach: []string{"done"}, Bound: "history " + h + " from the empty cache; client names of 1 symbolic byte, arbitrary instants, skew in (0, 2^50 ns)"})
 	}
 	add(&Instance{Property: "C02", Name: "history-k4", Entry: "service.VH_C02_History", Params: p("k", 4), Stubs: lt, Replay: "stubbed", Reach: []string{"done"}, Bound: "EVERY history of 4 operations over {present a1, present a2, clean-up}, arbitrary non-decreasing clock, arbitrary distinct client instants, skew in (0,2^50 ns)"})
@@ -595,6 +599,7 @@ func regC02(add addFn, p pFn) {
 	add(&Instance{Property: "C02", Name: "busy-client-n1100", Entry: "service.VH_C02_BusyClient", Params: p("n", 1100), Stubs: lt, Replay: "stubbed", Unwind: 3000, MaxSteps: 400000000, TimeoutS: 1500, Reach: []string{"done"}, Bound: "1100 tracked authenticators of one client"})
 	add(&Instance{Property: "C02", Name: "concurrent-same-2", Entry: "service.VH_C02_ConcurrentSame", Params: p("threads", 2), Stubs: lt, Replay: "stubbed", Reach: []string{"done"}, Bound: "2 goroutines, the same symbolic authenticator, EVERY interleaving at the lock operations"})
 	add(&Instance{Property: "C02", Name: "concurrent-same-3", Entry: "service.VH_C02_ConcurrentSame", Params: p("threads", 3), Stubs: lt, Replay: "stubbed", Tier: "thorough", TimeoutS: 1500, Reach: []string{"done"}, Bound: "3 goroutines, every interleaving"})
+	add(&Instance{Property: "C02", Name: "sweep-vs-presentation", Entry: "service.VH_C02_SweepVsPresentation", Stubs: lt, Replay: "stubbed", Reach: []string{"done"}, Bound: "a clean-up concurrent with the presentation of a fresh authenticator by a client whose only tracked authenticator has expired: every interleaving at lock granularity"})
 	add(&Instance{Property: "C02", Name: "concurrent-distinct", Entry: "service.VH_C02_ConcurrentDistinct", Stubs: lt, Replay: "stubbed", Reach: []string{"done"}, Bound: "2 verifications of distinct authenticators and a clean-up thread, every interleaving"})
 }
 
